@@ -74,10 +74,10 @@ Definition node (t : aht) (n l : N) : res bytes := node_at t (nodes_until n + l)
 
 Definition highest_node (t : aht) (i : N) (d : nat) : res bytes := node t i (highest_level i d).
 
-(* SetOffset(off) then Append(new): the bytes at [off, off+|new|) are replaced, what lies beyond
-   stays in the file *)
+(* SetOffset(off) then Append(new): since /repo 09014a8 SetOffset drops everything behind `off`
+   (singleapp truncates the file, multiapp removes the later chunk files) *)
 Definition write_at {A} (l : list A) (off : N) (new : list A) : list A :=
-  firstn (N.to_nat off) l ++ new ++ skipn (N.to_nat off + length new) l.
+  firstn (N.to_nat off) l ++ new.
 
 (* ---- Append: the w,l,k loop ---- *)
 Fixpoint append_loop (t : aht) (fuel : nat) (w l k : N) (h : bytes) (digs : list bytes)
@@ -190,37 +190,69 @@ Definition aht_step (t : aht) (o : aop) : aht :=
 
 Definition aht_run (ops : list aop) : aht := fold_left aht_step ops aht_empty.
 
-(* ---- Close + Open (OpenWith): the sizes are RE-DERIVED from the commit-log file: size = number of
-   12-byte entries the file holds, dLogSize = nodesUpto(size).  The commit log is never truncated
-   (ResetSize only moves the write offset, see C17), so the file holds `centries` = the LARGEST size
-   ever synced; the payload and digest files are checked to be long enough. ---- *)
+(* ---- Sync / Close / Open.  The commit log (12 bytes per element) is written by sync():
+   `cLog.SetOffset(latestSyncedNode*12)` — which since 09014a8 TRUNCATES the file there — followed
+   by the buffered entries; sync() does nothing when no append is buffered.  ResetSize calls
+   sync() FIRST and then only lowers the sizes in memory: the commit-log file keeps its entries
+   until the next append is synced.  OpenWith RE-DERIVES the sizes from the file: size = number
+   of entries, dLogSize = nodesUpto(size), after checking that the payload and digest logs are long
+   enough.  State of a run: (tree, entries in the commit-log file, "an append is buffered"). ---- *)
 Definition ECorruptedData : N := 14.
 Definition reopen_at (t : aht) (centries : N) : res aht :=
   if lenN (plog t) <? centries then Err ECorruptedData else
   if lenN (dlog t) <? nodes_upto centries then Err ECorruptedDigests else
   Ok (mkAht (plog t) (dlog t) centries (nodes_upto centries)).
 
-(* histories with restarts; the second component is the number of commit-log entries on disk *)
-Inductive aop2 := A2 (d : bytes) | R2 (k : N) | Reopen2.
+Record run2 := mkRun { tree : aht; centries : N; dirty : bool }.
 
-Definition aht_step2 (s : aht * N) (o : aop2) : aht * N :=
-  let '(t, ce) := s in
+(* sync(): with a buffered append the file is cut at latestSyncedNode and extended to `size` *)
+Definition sync2 (s : run2) : run2 :=
+  if dirty s then mkRun (tree s) (size (tree s)) false else s.
+
+(* A2 = Append, R2 = ResetSize, Reopen2 = Close + Open,
+   Crash2 c = Close, then Open on a COPY whose commit log was cut to c entries while the payload
+   and digest logs were left as they are (the image a crash leaves when the payload and digest
+   logs were flushed and the commit-log entries of the last appends were not yet synced) *)
+Inductive aop2 := A2 (d : bytes) | R2 (k : N) | Reopen2 | Crash2 (c : N).
+
+Definition aht_step2 (s : run2) (o : aop2) : run2 :=
   match o with
-  | A2 d => let t' := aht_step t (OAppend d) in (t', N.max ce (size t'))
-  | R2 k => (aht_step t (OReset k), ce)
-  | Reopen2 => match reopen_at t ce with Ok t' => (t', ce) | _ => (t, ce) end
+  | A2 d => match append (tree s) d with
+            | Ok (t', _) => mkRun t' (centries s) true
+            | _ => s
+            end
+  | R2 k =>
+      (* size < k: error; size = k: nothing, both before sync() *)
+      if size (tree s) <=? k then s else
+      let s' := sync2 s in
+      match reset_size (tree s') k with Ok t' => mkRun t' (centries s') false | _ => s' end
+  | Reopen2 =>
+      let s' := sync2 s in
+      match reopen_at (tree s') (centries s') with Ok t' => mkRun t' (centries s') false | _ => s' end
+  | Crash2 c =>
+      let s' := sync2 s in
+      if centries s' <? c then s' else
+      match reopen_at (tree s') c with Ok t' => mkRun t' c false | _ => s' end
   end.
 
-Definition aht_run2 (ops : list aop2) : aht * N := fold_left aht_step2 ops (aht_empty, 0).
+Definition aht_run2 (ops : list aop2) : run2 := fold_left aht_step2 ops (mkRun aht_empty 0 false).
 
-(* the same history without its restarts *)
-Fixpoint strip2 (ops : list aop2) : list aop :=
-  match ops with
-  | [] => []
-  | A2 d :: r => OAppend d :: strip2 r
-  | R2 k :: r => OReset k :: strip2 r
-  | Reopen2 :: r => strip2 r
+(* what the payload list is meant to be: (current content, content the commit log on disk
+   stands for, an append is buffered) *)
+Definition spec2 := (list bytes * list bytes * bool)%type.
+Definition spec_sync (s : spec2) : spec2 := let '(L, D, b) := s in if b then (L, L, false) else s.
+Definition spec_step2 (s : spec2) (o : aop2) : spec2 :=
+  match o with
+  | A2 d => let '(L, D, b) := s in (L ++ [d], D, true)
+  | R2 k => let '(L, D, b) := s in
+            if lenN L <=? k then s else
+            let '(L', D', _) := spec_sync s in (firstn (N.to_nat k) L', D', false)
+  | Reopen2 => let '(_, D', _) := spec_sync s in (D', D', false)
+  | Crash2 c => let '(L', D', _) := spec_sync s in
+                if lenN D' <? c then (L', D', false)
+                else (firstn (N.to_nat c) D', firstn (N.to_nat c) D', false)
   end.
+Definition spec_run2 (ops : list aop2) : spec2 := fold_left spec_step2 ops ([], [], false).
 
 (* the abstract content: the payloads below the size *)
 Definition payloads (t : aht) : list bytes := firstn (N.to_nat (size t)) (plog t).
